@@ -205,6 +205,10 @@ func TestVerifReplayTransactionSet(t *testing.T) {
 						if reported && len(trace) != 0 && !repl {
 							fail("rejected_changes_nothing", "validation errors reported, yet effects happened", both...)
 						}
+						if reported && len(trace) != 0 && repl {
+							// recorded finding: the replace intent is applied before the other intents are validated
+							fail("rejected_changes_nothing.known", "validation errors reported for an intent, yet the (valid) replace intent of the same transaction was applied", fnTS)
+						}
 						if len(trace) > 0 && !strings.HasPrefix(trace[0], "Set(") {
 							fail("device_first", "first effect "+trace[0], both...)
 						}
